@@ -435,24 +435,36 @@ Qed.
 
 (* -d, -w and the magefiles directory do not matter *)
 Lemma one_cache_dir_indep : forall l l' name,
-  p_abs (l_start l) = true -> l_start l = l_start l' -> l_cache_env l = l_cache_env l' -> l_home l = l_home l' ->
+  p_abs (l_start l) = true -> l_start l = l_start l' -> l_cache_env l = l_cache_env l' -> l_home l = l_home l' -> l_tmp l = l_tmp l' ->
   build_path true l name = exec_path true l' name /\ stat_path true l name = stat_path true l' name.
 Proof.
-  intros l l' name Hs E1 E2 E3.
+  intros l l' name Hs E1 E2 E3 E4.
   assert (Hs' : p_abs (l_start l') = true) by (rewrite <- E1; exact Hs).
   destruct (one_cache_dir l name Hs) as [Ee [_ [Es [Eb _]]]].
   destruct (one_cache_dir l' name Hs') as [Ee' [_ [Es' [_ Ex']]]].
   assert (E : exe_path true l name = exe_path true l' name).
-  { rewrite Ee, Ee'. unfold cache_dir_env. rewrite E1, E2, E3. reflexivity. }
+  { rewrite Ee, Ee'. unfold cache_dir_env. rewrite E1, E2, E3, E4. reflexivity. }
   rewrite Eb, Ex', Es, Es', E. split; reflexivity.
+Qed.
+
+(* the default directory: MAGEFILE_CACHE unset or empty -> $HOME/.magefile, wherever mage is started *)
+Lemma default_cache_dir : forall l, l_cache_env l = "" -> l_home l <> "" -> p_abs (parse_path (l_home l)) = true ->
+  cache_dir true l = clean (join2 (parse_path (l_home l)) (parse_path ".magefile")) /\
+  p_abs (cache_dir true l) = true.
+Proof.
+  intros l Ec Eh Ha. unfold cache_dir, cache_dir_env. rewrite Ec. cbn [String.eqb].
+  destruct (String.eqb (l_home l) "") eqn:E; [apply String.eqb_eq in E; contradiction|].
+  assert (Hj : p_abs (join2 (parse_path (l_home l)) (parse_path ".magefile")) = true)
+    by (unfold join2, clean; cbn [p_abs]; exact Ha).
+  unfold abs_path. rewrite Hj. split; [reflexivity|]. unfold clean at 1. cbn [p_abs]. exact Hj.
 Qed.
 
 Definition layout_dw : layout :=
   {| l_start := parse_path "/s"; l_d := "proj"; l_w := "work"; l_mfdir := false; l_plain := true;
-     l_cache_env := "relcache"; l_home := "/home/u" |}.
+     l_cache_env := "relcache"; l_home := "/home/u"; l_tmp := "/tmp" |}.
 Definition layout_mfdir : layout :=
   {| l_start := parse_path "/s"; l_d := ""; l_w := ""; l_mfdir := true; l_plain := false;
-     l_cache_env := "relcache"; l_home := "/home/u" |}.
+     l_cache_env := "relcache"; l_home := "/home/u"; l_tmp := "/tmp" |}.
 
 Lemma relative_cache_prefix_refuted :
   (exists l name, p_abs (l_start l) = true /\ l_mfdir l = false /\ build_path false l name <> exec_path false l name) /\
